@@ -149,6 +149,9 @@ type Node struct {
 	BC   *chain.BlockChain
 	Pool *txpool.TxPool
 	Self Key // identity used while this node processes requests (process global, see SetSelf)
+	// GasLimit, when non-zero, is the block gas limit this node's miner chooses (a miner-chosen header field);
+	// small values make blocks run full.
+	GasLimit uint64
 }
 
 // ScratchDir makes a fresh directory below $TMPDIR.
@@ -269,6 +272,9 @@ func (n *Node) MineH(parent *types.Block, t uint32, cands types.Transactions, ex
 		return nil, err
 	}
 	header.Time = t
+	if n.GasLimit != 0 {
+		header.GasLimit = n.GasLimit
+	}
 	if override != nil {
 		override(header)
 	}
